@@ -17,3 +17,8 @@ claim('C19', 'third-party API compatibility rule against installed pandas signat
       'Decides necessary structural conditions of the log reader on the current source: every pandas call and DataFrame method exists with those keywords in the installed pandas; '
       'header/footer line numbers are the trigger index +1/-1 over a counter that ignores blank lines, matched by skip_blank_lines reads of footer-header rows; both banners, the '
       'version banner slice and month table; append semantics; the first/last/all flatten rules. That pandas parses printed numbers to equal values is not decided.', 'DESIGN.md §6 C19')
+
+claim('C09', 'symbolic evaluation of reset_units over the base-unit monomial algebra; independent unit grammar with dimension/SI typing of the style tables; extraction of the parse() reduction on symbolic tokens',
+      'Decides structural necessary conditions: for all 29 admissible named working-unit choices reset_units, evaluated exactly over the base-unit algebra, leaves each chosen unit equal to one; '
+      'all mechanical LAMMPS style entries have the dimension of their key and the SI magnitude LAMMPS documents; get∘set is the identity for one parsed factor; the reduction half of parse() '
+      'computes ordinary precedence on every operator pattern up to 4 operators; tokenizer/parenthesis structure; model keys. Floating-point round trips and random seeds are not decided.', 'DESIGN.md §6 C09')
